@@ -157,7 +157,12 @@ def run_case(case):
         else:
             arg = v
     try:
-        g = AST2SCFG(arg)
+        if case.get("api") == "transformer-unpruned":
+            from numba_scfg.core.datastructures.ast_transforms import AST2SCFGTransformer
+
+            g = AST2SCFGTransformer(arg, prune=False).transform_to_SCFG()
+        else:
+            g = AST2SCFG(arg)
     except NotImplementedError:
         return "refused", ""
     except Exception as e:
@@ -179,8 +184,9 @@ def space():
     n = len(classes())
     m = len(NON_FUNCTIONS)
     # k in [0, n): statement cases; k in [n, n + m): non-function inputs (pos = depth = form = 0)
-    cs = z3.And(k >= 0, k < n + m, p >= 0, p < len(POSITIONS), d >= 1, d <= 2, f >= 0, f <= 1,
-                z3.Implies(k >= n, z3.And(p == 0, d == 1, f == 0)))
+    # f: 0 source string, 1 AST node list, 2 source string through AST2SCFGTransformer(prune=False)
+    cs = z3.And(k >= 0, k < n + m, p >= 0, p < len(POSITIONS), d >= 1, d <= 2, f >= 0, f <= 2,
+                z3.Implies(k >= n, z3.And(p == 0, d == 1, f != 1)))
     return cs, [k], {"k": k, "p": p, "d": d, "f": f}
 
 
@@ -195,10 +201,11 @@ def harness(E, ctx, aux):
         if cls not in TEMPLATES:
             ctx.feature("no-template:" + cls)
             return
-        case = {"kind": "stmt", "cls": cls, "pos": POSITIONS[p], "depth": d, "form": "str" if f == 0 else "nodes"}
+        case = {"kind": "stmt", "cls": cls, "pos": POSITIONS[p], "depth": d, "form": "nodes" if f == 1 else "str",
+                "api": "transformer-unpruned" if f == 2 else "AST2SCFG"}
         ctx.feature("class:" + cls)
     else:
-        case = {"kind": "input", "name": NON_FUNCTIONS[k - len(cl)][0]}
+        case = {"kind": "input", "name": NON_FUNCTIONS[k - len(cl)][0], "api": "transformer-unpruned" if f == 2 else "AST2SCFG"}
         ctx.feature("non-function-input")
     ctx.current = case
     fails, out = check(case)
@@ -212,9 +219,9 @@ def harness(E, ctx, aux):
 
 
 def jobs(tier):
-    n = (len(classes())) * len(POSITIONS) * 2 * 2 + len(NON_FUNCTIONS)
+    n = (len(classes())) * len(POSITIONS) * 2 * 3 + 2 * len(NON_FUNCTIONS)
     return [Job("unsupported-statements-and-inputs", space, harness,
-                bounds={"classes": classes(), "positions": POSITIONS, "depth": [1, 2], "forms": ["source string", "AST node list"],
+                bounds={"classes": classes(), "positions": POSITIONS, "depth": [1, 2], "forms": ["source string", "AST node list", "source string via AST2SCFGTransformer(prune=False)"],
                         "non_function_inputs": [n for n, _ in NON_FUNCTIONS]}, budget_s=300, expect_paths=n)]
 
 
